@@ -376,6 +376,10 @@ def _jobs_extra():
     return [("unknown-fluid", job_unknown_fluid)]
 
 
+# concrete replays run on the real code when the changed code uses something the engine does not model (harness.finish)
+FALLBACK = [(replay_facade, {"method": m_}) for m_ in ("water_FVF", "water_viscosity", "gas_FVF", "gas_viscosity", "oil_FVF", "oil_viscosity", "pressure_bubblepoint")] + [(replay_facade, {"method": "oil_viscosity", "reassigned": "used"}), (replay_facade, {"method": "gas_viscosity", "container": "series"}), (replay_grid, {}), (replay_sutton, {}), (replay_unknown_fluid, {})]
+
+
 def jobs(tier):
     out = [("facade", job_facade), ("table45", lambda j: job_table(j, 45)), ("sutton", job_sutton), ("unknown-fluid", job_unknown_fluid)]
     if tier != "quick":
